@@ -280,9 +280,16 @@ func (vc *VC) binopInt(op token.Token, a, b *Val, rt types.Type) *Val {
 		if !s {
 			return vc.bv(app("div", x, y), w, s, rt)
 		}
+		if bLit && kb.Sign() > 0 {
+			// Go truncates toward zero
+			return vc.bv(sIte(app(">=", x, "0"), app("div", x, y), app("-", app("div", app("-", x), y))), w, s, rt)
+		}
 	case token.REM:
 		if !s {
 			return vc.bv(app("mod", x, y), w, s, rt)
+		}
+		if bLit && kb.Sign() > 0 {
+			return vc.bv(sIte(app(">=", x, "0"), app("mod", x, y), app("-", app("mod", app("-", x), y))), w, s, rt)
 		}
 	}
 	_ = ka
